@@ -222,15 +222,18 @@ structure Out where
   err     : Err
   written : Option Bytes
 
+/-- the loops' result as the API functions report it: status, and the output file as it stands -/
+def wrapLoop : Except Fault (Err × Bytes) → Except Fault Out
+  | .error f => .error f
+  | .ok (e, w) => .ok ⟨e, some w⟩
+
 /-- `oabd_decompress` from the point where the output is opened: the block loop
     (`blockMax`, `targetSize` = the header fields) -/
 def fullRun (fuel bufSize : Nat) (fill : UInt8) (fileLen blockMax targetSize : Nat) (infh : Rd)
     (outIsIn : Bool) : Except Fault Out :=
   -- the output is opened (created / truncated) here
   let infh : Rd := if outIsIn then { infh with file := [] } else infh
-  match fullLoop fuel bufSize fill blockMax (fileLen / 16 + 1) infh targetSize [] with
-  | .error f => .error f
-  | .ok (e, w) => .ok ⟨e, some w⟩
+  wrapLoop (fullLoop fuel bufSize fill blockMax (fileLen / 16 + 1) infh targetSize [])
 
 /-- `oabd_decompress(self, input, output)` for non-NULL `self`.
     `fuel`: LZX decoder fuel (≥ 16 × input bytes + 100000); `bufSize` = `self->buf_size`;
@@ -255,7 +258,7 @@ def patchWindowSize (blkSsize blkDsize : Nat) : Nat :=
 
 /-- one round of `while (target_size)` of `oabd_decompress_incremental`.  `basePos` = position of
     `basefh`; the base file is `base`, or the output so far if `outIsBase`. -/
-def patchBlock (fuel bufSize : Nat) (fill : UInt8) (blockMax : Nat) (base : Bytes) (outIsBase : Bool)
+def patchBlock (fuel bufSize lzxBuf : Nat) (fill : UInt8) (blockMax : Nat) (base : Bytes) (outIsBase : Bool)
     (infh : Rd) (basePos targetSize : Nat) (w : Bytes) : Except Fault Round :=
   match infh.readExact patchblkSIZEOF with
   | none => .ok (.done (.read, w))
@@ -268,7 +271,9 @@ def patchBlock (fuel bufSize : Nat) (fill : UInt8) (blockMax : Nat) (base : Byte
     let windowSize := patchWindowSize blkSsize blkDsize
     let wb := windowBits windowSize
     -- in_ofh.available = blk_csize; out_ofh.crc = 0xffffffff;
-    match lzxInit ⟨infh, blkCsize⟩ wb 4096 blkDsize fill with
+    -- (`lzxBuf` = the constant 4096 of the C, passed down from `decompressIncremental`: with the literal here,
+    --  Lean's evaluator walks into `Lzx.init` whenever a proof touches this match)
+    match lzxInit ⟨infh, blkCsize⟩ wb lzxBuf blkDsize fill with
     | none => .ok (.done (.nomemory, w))
     | some lzx =>
       -- lzxd_set_reference_data(lzx, sys, basefh, blk_ssize): one read of blk_ssize bytes
@@ -285,19 +290,19 @@ def patchBlock (fuel bufSize : Nat) (fill : UInt8) (blockMax : Nat) (base : Byte
         else .ok (.next b.rd rd.2.pos (targetSize - blkDsize) (w ++ b.written))
 
 /-- `while (target_size)` of `oabd_decompress_incremental` -/
-def patchLoop (fuel bufSize : Nat) (fill : UInt8) (blockMax : Nat) (base : Bytes) (outIsBase : Bool) :
+def patchLoop (fuel bufSize lzxBuf : Nat) (fill : UInt8) (blockMax : Nat) (base : Bytes) (outIsBase : Bool) :
     Nat → Rd → Nat → Nat → Bytes → Except Fault (Err × Bytes)
   | 0, _, _, targetSize, w => if targetSize = 0 then .ok (.ok, w) else .error .hang
   | n + 1, infh, basePos, targetSize, w =>
     if targetSize = 0 then .ok (.ok, w) else
-    match patchBlock fuel bufSize fill blockMax base outIsBase infh basePos targetSize w with
+    match patchBlock fuel bufSize lzxBuf fill blockMax base outIsBase infh basePos targetSize w with
     | .error f => .error f
     | .ok (.done r) => .ok r
     | .ok (.next infh basePos targetSize w) =>
-      patchLoop fuel bufSize fill blockMax base outIsBase n infh basePos targetSize w
+      patchLoop fuel bufSize lzxBuf fill blockMax base outIsBase n infh basePos targetSize w
 
 /-- `oabd_decompress_incremental` from the point where the output is opened: the block loop -/
-def incrementalLoop (fuel bufSize : Nat) (fill : UInt8) (fileLen blockMax targetSize : Nat) (infh : Rd)
+def incrementalLoop (fuel bufSize lzxBuf : Nat) (fill : UInt8) (fileLen blockMax targetSize : Nat) (infh : Rd)
     (base : Bytes) (outIsIn outIsBase : Bool) : Except Fault Out :=
   -- (`blockMax`, `targetSize`: the header fields, passed in as numbers — a definition whose body
   --  reads them out of a buffer and then enters the loop makes the kernel evaluate `x * 16777216`
@@ -306,26 +311,24 @@ def incrementalLoop (fuel bufSize : Nat) (fill : UInt8) (fileLen blockMax target
   let blockMax := if blockMax < patchblkSIZEOF then patchblkSIZEOF else blockMax
   -- the output is opened (created / truncated) here
   let infh : Rd := if outIsIn then { infh with file := [] } else infh
-  match patchLoop fuel bufSize fill blockMax base outIsBase (fileLen / 16 + 1) infh 0 targetSize [] with
-  | .error f => .error f
-  | .ok (e, w) => .ok ⟨e, some w⟩
+  wrapLoop (patchLoop fuel bufSize lzxBuf fill blockMax base outIsBase (fileLen / 16 + 1) infh 0 targetSize [])
 
 /-- ... from the point where the base file is opened -/
-def incrementalBase (fuel bufSize : Nat) (fill : UInt8) (fileLen blockMax targetSize : Nat) (infh : Rd)
+def incrementalBase (fuel bufSize lzxBuf : Nat) (fill : UInt8) (fileLen blockMax targetSize : Nat) (infh : Rd)
     (base : Option Bytes) (outIsIn outIsBase : Bool) : Except Fault Out :=
   match base with
   | none => .ok ⟨.open_, none⟩
-  | some base => incrementalLoop fuel bufSize fill fileLen blockMax targetSize infh base outIsIn outIsBase
+  | some base => incrementalLoop fuel bufSize lzxBuf fill fileLen blockMax targetSize infh base outIsIn outIsBase
 
 /-- ... from the point where the input has been opened: header read and signature check -/
-def incrementalOpened (fuel bufSize : Nat) (fill : UInt8) (file : Bytes) (base : Option Bytes)
+def incrementalOpened (fuel bufSize lzxBuf : Nat) (fill : UInt8) (file : Bytes) (base : Option Bytes)
     (outIsIn outIsBase : Bool) : Except Fault Out :=
   match (⟨file, 0⟩ : Rd).readExact patchheadSIZEOF with
   | none => .ok ⟨.read, none⟩
   | some (hdrbuf, infh) =>
     if u32At hdrbuf patchhead_VersionHi ≠ 3 ∨ u32At hdrbuf patchhead_VersionLo ≠ 2 then
       .ok ⟨.signature, none⟩
-    else incrementalBase fuel bufSize fill file.length (u32At hdrbuf patchhead_BlockMax)
+    else incrementalBase fuel bufSize lzxBuf fill file.length (u32At hdrbuf patchhead_BlockMax)
            (u32At hdrbuf patchhead_TargetSize) infh base outIsIn outIsBase
 
 /-- `oabd_decompress_incremental(self, input, base, output)` for non-NULL `self` (the order of the
@@ -334,6 +337,6 @@ def decompressIncremental (fuel bufSize : Nat) (fill : UInt8) (input base : Opti
     (outIsIn : Bool := false) (outIsBase : Bool := false) : Except Fault Out :=
   match input with
   | none => .ok ⟨.open_, none⟩
-  | some file => incrementalOpened fuel bufSize fill file base outIsIn outIsBase
+  | some file => incrementalOpened fuel bufSize 4096 fill file base outIsIn outIsBase
 
 end MsPack.Oab
